@@ -252,4 +252,10 @@ theorem C19_wiring2 :
     Sso.Generated.skel_store_ClearSession =
       ["call:Now", "call:makeSessionCookie", "call:SetCookie"] := by decide
 
+/-- Tie (T1), third wave: the constructors and option functions that hand configured values to the components this property
+speaks about (proxy_newProvider). -/
+theorem C19_wiring3 :
+    Sso.Generated.skel_proxy_newProvider =
+      ["call:Parse", "if{", "return", "}", "if{", "call:Parse", "if{", "return", "}", "}", "call:New", "call:NewSingleFlightProvider", "return"] := by decide
+
 end Sso.Proxy
